@@ -6,6 +6,10 @@ Model side: `Dna.strandGraphFrom first`, `Dna.complement` (mirrors the code) and
 (the property's own statement, evaluated with the Watson-Crick pairing written in the property, not with
 the repository's table); `first` is the real key of the first residue — no key normalisation, the
 implementation, the model and the specification are compared on the true node keys.
+End-to-end stream: real `gen_params(name, outpath, lib=['parmbsc1'], seq=… | seq_file=…, dsdna=…)` into a
+temporary directory, residues (resid, resname) read back from the written .itp; model `Dna.genParamsDsdna`
+(complement after EITHER source), oracle = the Lean specification (2n residues: strand, then the
+antiparallel Watson-Crick complement; n residues without `dsdna`).
 """
 import os
 import tempfile
@@ -16,7 +20,9 @@ import common
 BASES = "ACGT"
 RULE = ("random DNA strands built by the real parsers (fasta / ig linear / ig circular / monomer list / json with node keys starting at 0, 1, 4, 7, compared on the true keys), "
         "length 1..12 quick, up to 200 thorough, random edge attribute dicts; plus a malformed stream with "
-        "one unknown residue name; a case is non-trivial when n >= 2; distinct = (kind, sequence, labels)")
+        "one unknown residue name; a case is non-trivial when n >= 2; distinct = (kind, sequence, labels); "
+        "plus an end-to-end stream: real gen_params(lib=parmbsc1, dsdna=True/False) with the strand given by "
+        "-seq or by -seqf (fasta / ig linear / ig circular / json), 2-6 nt, the written .itp read back")
 
 
 def canon_graph(graph):
@@ -56,6 +62,12 @@ def build_strand(kind, letters, tmpdir):
             names[0] += "5"
             names[-1] += "3"
         return MetaMolecule.from_monomer_seq_linear(ff, [Monomer(resname=n, n_blocks=1) for n in names], "dna")
+    path = write_seq_file(kind, letters, tmpdir)
+    return MetaMolecule.from_sequence_file(ff, pathlib.Path(path), "dna")
+
+
+def write_seq_file(kind, letters, tmpdir):
+    """Write the strand (one-letter codes) as a sequence file of the given kind; returns the path."""
     if kind.startswith("json"):
         # a residue graph given as .json may number its nodes from any integer (node keys are not
         # residue ids); kind = "json-<first key>" or "json-circular-<first key>"
@@ -75,7 +87,7 @@ def build_strand(kind, letters, tmpdir):
         path = os.path.join(tmpdir, "s.json")
         with open(path, "w") as handle:
             _json.dump(data, handle)
-        return MetaMolecule.from_sequence_file(ff, pathlib.Path(path), "dna")
+        return path
     if kind == "fasta":
         path = os.path.join(tmpdir, "s.fasta")
         with open(path, "w") as handle:
@@ -89,7 +101,7 @@ def build_strand(kind, letters, tmpdir):
             body = letters + ("2" if kind == "ig-circular" else "1")
             for i in range(0, len(body), 9):
                 handle.write(body[i:i + 9] + "\n")
-    return MetaMolecule.from_sequence_file(ff, pathlib.Path(path), "dna")
+    return path
 
 
 def strand_request(meta):
@@ -227,6 +239,128 @@ def gen_cases(ctx):
     return cases
 
 
+# ---------------------------------------------------------------------------------------------------
+# end-to-end stream: the real `gen_params(..., dsdna=True|False)` with the strand given by `-seq` or by
+# `-seqf`, the written .itp read back (property anchor gen_itp.py: "completing a strand of n nucleotides
+# yields 2n residues")
+
+E2E_SOURCES = ["seq", "fasta", "ig-linear", "ig-circular", "json-0", "json-1", "json-7", "json-circular-4"]
+
+
+def read_itp_residues(path):
+    """[[resid, resname], ...] of the [ atoms ] section, in order of first appearance"""
+    section, out = None, []
+    with open(path) as handle:
+        for line in handle:
+            line = line.split(";")[0].strip()
+            if not line:
+                continue
+            if line.startswith("["):
+                section = line.strip("[] \t")
+                continue
+            if section == "atoms":
+                fields = line.split()
+                res = [int(fields[2]), fields[3]]
+                if not out or out[-1] != res:
+                    out.append(res)
+    return out
+
+
+def seq_strings(names):
+    """`-seq` arguments "resname:count" (equal neighbours are grouped, as a user would write them)"""
+    out = []
+    for name in names:
+        if out and out[-1][0] == name:
+            out[-1][1] += 1
+        else:
+            out.append([name, 1])
+    return ["%s:%d" % (a, b) for a, b in out]
+
+
+def e2e_case(ctx, source, letters, dsdna):
+    from polyply.src.gen_itp import gen_params
+    kind = "monomers" if source == "seq" else source
+    with tempfile.TemporaryDirectory() as tmpdir:
+        # what the sequence parsers make of this input (names, labels, first key), read off the real object
+        meta = build_strand(kind, letters, tmpdir)
+        names, labels, circ = strand_request(meta)
+        first = int(list(meta.nodes)[0]) if len(meta.nodes) else 0
+        out = pathlib.Path(tmpdir) / "out.itp"
+        kwargs = dict(name="dna", outpath=out, inpath=[], lib=["parmbsc1"], dsdna=dsdna)
+        if source == "seq":
+            kwargs.update(seq=seq_strings(names), seq_file=None)
+        else:
+            kwargs.update(seq=None, seq_file=pathlib.Path(write_seq_file(kind, letters, tmpdir)))
+        try:
+            gen_params(**kwargs)
+            impl = dict(ok=True, residues=read_itp_residues(out))
+        except Exception as err:  # pylint: disable=broad-except
+            impl = dict(ok=False, err=type(err).__name__)
+    replay = dict(stream="e2e", source=source, letters=letters, dsdna=dsdna)
+    reqs = [dict(op="genparams", source=("seq" if source == "seq" else "seq_file"), dsdna=dsdna,
+                 names=names, labels=labels, circ=circ, first=first),
+            dict(op="spec", names=names, labels=labels, circ=circ, first=first)]
+    return dict(replay=replay, names=names, impl=impl, reqs=reqs, dsdna=dsdna)
+
+
+def e2e_judge(ctx, case, model, spec):
+    replay, impl, names = case["replay"], case["impl"], case["names"]
+    n = len(names)
+    model_obs = dict(ok=True, residues=[list(r) for r in model["residues"]]) if model["ok"] else dict(ok=False)
+    ctx.correspond("gen_params-dsdna", dict(ok=impl["ok"], residues=impl.get("residues")),
+                   dict(ok=model_obs["ok"], residues=model_obs.get("residues")), replay)
+    if spec["ok"]:
+        if case["dsdna"]:
+            want = [[node[1], node[2]] for node in spec["graph"]["nodes"]]   # 2n residues
+        else:
+            want = [[i + 1, nm] for i, nm in enumerate(names)]
+        if not impl["ok"]:
+            ctx.oracle_fail("gen-params-rejects-valid-strand", "gen_params(dsdna=%s) raised %s on %s"
+                            % (case["dsdna"], impl["err"], replay), replay)
+        elif impl["residues"] != want:
+            shape = "gen-params-dsdna-not-2n" if case["dsdna"] and len(impl["residues"]) != 2 * n else \
+                "gen-params-wrong-residues"
+            ctx.oracle_fail(shape, "gen_params(dsdna=%s) on a strand of %d residues %s wrote %d residues %s, "
+                            "want %s" % (case["dsdna"], n, names, len(impl["residues"]), impl["residues"], want),
+                            replay)
+    ctx.case(("e2e", replay["source"], replay["letters"], replay["dsdna"]),
+             sample=dict(input=replay, names=names, result=impl),
+             kind="gen_params/" + ("seq" if replay["source"] == "seq" else "seq_file"),
+             n=("2" if n == 2 else "3-12"), valid=spec["ok"])
+
+
+def gen_e2e_cases(ctx):
+    rng = ctx.rng
+    cases = []
+
+    def letters_for(source):
+        n = rng.randint(3, 6) if "circular" in source else rng.randint(2, 6)
+        return "".join(rng.choice(BASES) for _ in range(n))
+    for source in E2E_SOURCES:                      # every source with the flag ...
+        cases.append((source, letters_for(source), True))
+    for source in ("seq", rng.choice(E2E_SOURCES[1:])):   # ... and the control without it
+        cases.append((source, letters_for(source), False))
+    for _ in range(ctx.budget(6, 60)):
+        source = rng.choice(E2E_SOURCES + ["seq", "seq"])
+        cases.append((source, letters_for(source), rng.random() < 0.8))
+    return cases
+
+
+def run_e2e(ctx, specs):
+    cases = []
+    for source, letters, dsdna in specs:
+        try:
+            cases.append(e2e_case(ctx, source, letters, dsdna))
+        except Exception as err:  # pylint: disable=broad-except
+            ctx.tally(e2e_setup_failed=type(err).__name__)
+    reqs = []
+    for case in cases:
+        reqs += case["reqs"]
+    answers = ctx.driver.ask(reqs) if reqs else []
+    for i, case in enumerate(cases):
+        e2e_judge(ctx, case, answers[2 * i], answers[2 * i + 1])
+
+
 def corpus_cases():
     path = os.path.join(common.VERIF, "corpus", "C19")
     out = []
@@ -235,7 +369,22 @@ def corpus_cases():
         for name in sorted(os.listdir(path)):
             data = json.load(open(os.path.join(path, name)))
             inp = data.get("input", data)
+            if inp.get("stream") == "e2e":
+                continue
             out.append((inp["kind"], inp["letters"], inp["label_seed"], inp.get("unknown_at")))
+    return out
+
+
+def corpus_e2e_cases():
+    path = os.path.join(common.VERIF, "corpus", "C19")
+    out = []
+    if os.path.isdir(path):
+        import json
+        for name in sorted(os.listdir(path)):
+            data = json.load(open(os.path.join(path, name)))
+            inp = data.get("input", data)
+            if inp.get("stream") == "e2e":
+                out.append((inp["source"], inp["letters"], inp["dsdna"]))
     return out
 
 
@@ -268,7 +417,11 @@ def run(ctx):
     ctx.extra["rule"] = RULE
     ctx.extra["trusted"] = ["networkx Graph adjacency order (modelled as edge insertion order)"]
     ctx.assumptions.append("circular strands have n >= 3 (a 2-ring is the same edge twice)")
+    ctx.extra["trusted"].append("gen_params after the residue graph is built (MapToMolecule, links, itp "
+                                "writer) keeps residue order, resids and resnames: observed through the written "
+                                ".itp, modelled only up to the input of MapToMolecule")
     run_cases(ctx, corpus_cases() + gen_cases(ctx))
+    run_e2e(ctx, corpus_e2e_cases() + gen_e2e_cases(ctx))
 
 
 def replay(ctx, data):
@@ -278,9 +431,12 @@ def replay(ctx, data):
         for item in data.get("no_longer_checks", []):
             print("  ", item["name"], "-", item["detail"][:300])
         inputs = [i["input"] for i in data.get("no_longer_checks", []) if i.get("input")]
-        specs = [(i["kind"], i["letters"], i["label_seed"], i.get("unknown_at")) for i in inputs]
     else:
-        specs = [(inp["kind"], inp["letters"], inp["label_seed"], inp.get("unknown_at"))]
+        inputs = [inp]
+    specs = [(i["kind"], i["letters"], i["label_seed"], i.get("unknown_at")) for i in inputs
+             if i.get("stream") != "e2e"]
+    e2e_specs = [(i["source"], i["letters"], i["dsdna"]) for i in inputs if i.get("stream") == "e2e"]
     run_cases(ctx, specs)
+    run_e2e(ctx, e2e_specs)
     for b in ctx.broken:
         print("REPLAY-DISAGREES", b["name"], b["detail"][:400])
